@@ -20,6 +20,8 @@ for name, c in sorted(confirm.items()):
         continue
     pid, m = name.split('_')
     src = '/tmp/seed-%s-out/%s' % (pid, m)
+    if not os.path.isdir(src):
+        src = '/tmp/seed2-%s-out/%s' % (pid, m)     # second round of seeded changes (m3, m4)
     dst = '/verif/seeded/%s' % name
     os.makedirs(dst, exist_ok=True)
     # a patch written against an older tree was ported by hand to the current one where a later fix: commit touched the same lines
@@ -44,7 +46,7 @@ for name, c in sorted(confirm.items()):
         "written_by": "independent sub-agent given only the property text and a scratch worktree of /repo",
         "needs_to_manifest": need or "see README.md",
         "confirmed_in_scratch_worktree": c,
-        "confirm_cmd": "tools/confirm_seed.sh /tmp/seed-%s-out/%s %s (demo on unchanged tree: pass; demo with patch: fail; full go test with patch: pass)" % (pid, m, name),
+        "confirm_cmd": "tools/confirm_seed.sh %s %s (demo on unchanged tree: pass; demo with patch: fail; full go test with patch: pass)" % (src, name),
         "checks_run": caught.get(name, {}),
         "caught_by": sorted(k for k, v in caught.get(name, {}).items() if v['violations'] > 0),
         "run_cmd": "tools/try_mutant.sh seeded/%s/patch.diff %s <checks>  (scratch worktree via VERIF_REPO, /repo itself untouched)" % (name, name),
